@@ -215,6 +215,19 @@ func runC13(c *core.Ctx) {
 			os.WriteFile(filepath.Join(tree, info.Dirs[1], "same"), []byte("one"), 0644)
 			os.WriteFile(filepath.Join(tree, info.Dirs[2], "same"), []byte("two"), 0644)
 		}
+		// a regular file and a file symlink (and a file below a directory symlink) that get the same
+		// name once their directory prefixes are stripped, the regular one being visited first
+		collide := r.Intn(3) == 0
+		if collide {
+			mkdirs(filepath.Join(tree, "col-a"), filepath.Join(tree, "col-b"), filepath.Join(tree, "col-real"))
+			os.WriteFile(filepath.Join(tree, "col-a", "dup"), []byte("regular"), 0644)
+			os.WriteFile(filepath.Join(tree, "col-real", "elsewhere"), []byte("target of the link"), 0644)
+			os.Symlink("../col-real/elsewhere", filepath.Join(tree, "col-b", "dup"))
+			info.Dirs = append(info.Dirs, "col-a", "col-b", "col-real")
+			info.FilePaths = append(info.FilePaths, "col-a/dup", "col-real/elsewhere")
+			info.Files += 2
+			info.FileLinks++
+		}
 		os.Chdir(tree)
 		for v := 0; v < c.Pick(6, 10); v++ {
 			id := fmt.Sprintf("record/%d/%d", i, v)
@@ -275,6 +288,14 @@ func runC13(c *core.Ctx) {
 						pre = tree + "/" + pre
 					}
 					k.Opts.Strip = append(k.Opts.Strip, pre)
+				}
+			}
+			if collide && v == 0 {
+				// the option set that makes the pair collide
+				k.Paths, k.Opts.Exclude = []string{"."}, nil
+				k.Opts.Strip = []string{"col-a/", "col-b/"}
+				if len(k.Opts.Algs) == 0 || r.Intn(2) == 0 {
+					k.Opts.Algs = []string{"sha256"}
 				}
 			}
 			c.Begin(id)
@@ -559,7 +580,7 @@ func init() {
 	core.Register(&core.Property{
 		ID:    "C13",
 		Level: "exploration",
-		Rule: "seeded real directory trees (depth<=4, <=40 entries; empty, binary, CR/LF/CRLF-mixed files, in a fifth of the trees a 150 KB text file whose CR LF pairs straddle 512 B ... 128 KiB block boundaries; file symlinks relative and absolute, directory symlinks, chains, two routes to one file, self/mutual loops, ancestor links, link to the root, dangling links; same-named files in different directories) x 6-10 option sets each (9 algorithm lists incl. unknown and empty names, normalisation, follow-directory-symlinks, exclude {none, *.tmp, one basename, several}, paths {., absolute root, directory+file, single file, missing path}, strip {none, root, one directory, several nested/colliding prefixes}) through RecordArtifacts; per tree also InTotoRun with a command that creates/modifies/deletes files and replaces one by other content of the same size with its modification time restored, InTotoRecordStart/Stop with changes in between, InTotoMatchProducts after local tampering (some link products listed with fewer algorithms than requested or with none); one worker runs as uid 65534 and makes every file and directory of a tree unreadable in turn (real EACCES; fault enumeration over the tree). Oracle = reference recorder (harness/ref/record.go). " +
+		Rule: "seeded real directory trees (depth<=4, <=40 entries; empty, binary, CR/LF/CRLF-mixed files, in a fifth of the trees a 150 KB text file whose CR LF pairs straddle 512 B ... 128 KiB block boundaries; file symlinks relative and absolute, directory symlinks, chains, two routes to one file, self/mutual loops, ancestor links, link to the root, dangling links; same-named files in different directories, in a third of the trees a regular file and a file symlink that collide once two prefixes are stripped - the regular one visited first) x 6-10 option sets each (9 algorithm lists incl. unknown and empty names, normalisation, follow-directory-symlinks, exclude {none, *.tmp, one basename, several}, paths {., absolute root, directory+file, single file, missing path}, strip {none, root, one directory, several nested/colliding prefixes}) through RecordArtifacts; per tree also InTotoRun with a command that creates/modifies/deletes files and replaces one by other content of the same size with its modification time restored, InTotoRecordStart/Stop with changes in between, InTotoMatchProducts after local tampering (some link products listed with fewer algorithms than requested or with none); one worker runs as uid 65534 and makes every file and directory of a tree unreadable in turn (real EACCES; fault enumeration over the tree). Oracle = reference recorder (harness/ref/record.go). " +
 			"non-trivial = tree has >=2 files and a symlink, CR content, strip or exclude; distinct = (tree number, option set)",
 		Assumptions: []string{
 			"exclude patterns are limited to *.<ext> and plain basenames; directories and symlink targets are never named so that they match; symlinks whose own name matches (a0-link.tmp, a1-dirlink.tmp, sorting before their siblings) are generated: they are skipped as a whole and nothing else is (go-pathspec matches the whole walked path and does not prune excluded directories - outside the statement)",
